@@ -25,3 +25,10 @@ class VariableBoundBoundsMaxPropagator(VariableBoundMaxPropagator):
 #        print("max: " + str(self.other.domain.range_l[-1][1]+self.offset))
         return (self.other.domain.range_l[-1][1]+self.offset)
     
+
+    def propagate(self):
+        if len(self.other.domain.range_l) == 0:
+            # The other variable has no value left, so there is no
+            # bound to take from it. The solver reports the failure
+            return False
+        return super().propagate()
